@@ -455,7 +455,7 @@ def write_if_changed(path, txt):
 def run(repo, verif, build):
     T = translate(repo)
     if T.get("ok"):
-        write_if_changed(os.path.join(verif, "coq", "gen", "ParamTables.v"), emit_coq(T))
+        write_if_changed(os.path.join(os.environ.get("VERIF_GEN_OUT") or os.path.join(verif, "coq", "gen"), "ParamTables.v"), emit_coq(T))
         write_if_changed(os.path.join(build, "gen", "C18_gen.hpp"), emit_cpp(T))
         write_if_changed(os.path.join(build, "gen", "C18_tables.json"), json.dumps(T, indent=1, ensure_ascii=False, default=str))
     return T
@@ -463,7 +463,7 @@ def run(repo, verif, build):
 if __name__ == "__main__":
     repo = sys.argv[1] if len(sys.argv) > 1 else os.environ.get("VERIF_REPO", "/repo")
     verif = os.path.dirname(os.path.dirname(os.path.abspath(__file__)))
-    build = sys.argv[2] if len(sys.argv) > 2 else os.path.join(verif, "build")
+    build = sys.argv[2] if len(sys.argv) > 2 else (os.path.join(os.environ["VERIF_GEN_OUT"], "_build") if os.environ.get("VERIF_GEN_OUT") else os.path.join(verif, "build"))
     T = run(repo, verif, build)
     print(json.dumps({"ok": T.get("ok"), "out_of_grammar": T["out_of_grammar"],
                       "structs": {n: [f["name"] + ":" + f["ty"]["k"] for f in s["fields"]] for n, s in T.get("structs", {}).items()},
